@@ -93,19 +93,6 @@ def _canonicalise(tree: ast.AST) -> None:
                 _flatten(h.body)
             if isinstance(st, ast.If) and st.orelse and st.body and isinstance(st.body[-1], _EXIT) and not elif_arm:
                 # (also when the else part is an elif chain: `if A: exit elif B: ..` == `if A: exit` + `if B: ..`)
-                # both branches leave: the SHORTER one becomes the guard (as in the usual flat spelling `if g: exit` + rest),
-                # whatever the polarity of the test was - so `if C: A else: B` and `if not C: B else: A` meet
-                if isinstance(st.orelse[-1], _EXIT) and not (len(st.orelse) == 1 and isinstance(st.orelse[0], ast.If)):
-                    size = lambda b: sum(1 for s_ in b for _ in ast.walk(s_))  # noqa: E731
-                    if size(st.orelse) < size(st.body):
-                        st.body, st.orelse = st.orelse, st.body
-                        t = st.test
-                        if isinstance(t, ast.UnaryOp) and isinstance(t.op, ast.Not):
-                            st.test = t.operand
-                        elif isinstance(t, ast.Compare) and len(t.ops) == 1 and type(t.ops[0]) in _NEG:
-                            t.ops = [_NEG[type(t.ops[0])]()]
-                        else:
-                            st.test = ast.copy_location(ast.UnaryOp(op=ast.Not(), operand=t), t)
                 rest, st.orelse = st.orelse, []
                 blk[i + 1:i + 1] = rest
             elif isinstance(st, ast.If) and st.orelse and not (len(st.orelse) == 1 and isinstance(st.orelse[0], ast.If)) and st.body:
